@@ -380,6 +380,8 @@ def channel_name_lists(draw, n):
                 nm = NAME_ALPHABET[(NAME_ALPHABET.index(nm[0]) + 1) % 36] + nm[1:]
         seen.add(nm)
         names.append(nm)
+    if n >= 2 and raw[0] % 8 == 0 and '    ' not in names:
+        names[raw[1] % n] = '    '        # a channel whose name was left blank: still a channel with data in every block
     return names
 
 
